@@ -1203,6 +1203,11 @@ int simrt_active(void)
     return in_sim() ? 1 : 0;
 }
 
+void simrt_set_cores(int cores)
+{
+    S.cfg.cores = cores > 0 ? cores : 1;
+}
+
 void simrt_yield(const char* what)
 {
     if (in_sim())
